@@ -339,7 +339,7 @@ impl<T> Future for Tagged<T> {
 // ------------------------------------------------------------------ the service
 
 #[repr(C)]
-#[derive(Serialize, Deserialize, Archive, PartialEq, Debug)]
+#[derive(Serialize, Deserialize, Archive, PartialEq, Debug, Clone)]
 #[archive(compare(PartialEq), check_bytes)]
 pub struct Ping {
     payload: u32,
@@ -517,6 +517,11 @@ fn run_case(case: &Case) -> RunOut {
                 if q.tmo_us > 0 && mutate() != 3 {
                     client.set_timeout(Duration::from_micros(q.tmo_us));
                 }
+                // Which public path issues the request is not part of the case's meaning: the
+                // configured client or a clone of it, a borrowed or an owned message.  It rotates
+                // with the case's salt, so a replay takes the same path.
+                let via = (case.salt as usize + i) % 4;
+                let mut client = if via % 2 == 1 { client.clone() } else { client };
                 let msg = Ping { payload: case.payload(i), idx: i as u32, delay_us: q.delay_us, hf: q.hf };
                 let obs = cobs.clone();
                 let res = cres.clone();
@@ -527,7 +532,7 @@ fn run_case(case: &Case) -> RunOut {
                     let t0 = us_since(base);
                     obs.lock().unwrap().push(t0, Ev::St(i));
                     let fut = async move {
-                        let mut r = client.send(&msg).await;
+                        let mut r = if via >= 2 { client.send_owned(msg.clone()).await } else { client.send(&msg).await };
                         if mutate() == 1 && r.is_err() {
                             // mutation: a client that retries a failed call
                             r = client.send(&msg).await;
